@@ -73,6 +73,17 @@ def subharnesses(tier):
                 subs.append(('reconfig-%d-to-%d-cur%d-evals5' % (n0, n1, cur0),
                              {'kind': 'reconfig', 'n0': n0, 'n1': n1,
                               'cur0': cur0, 'evals': 5}))
+    # the monitor is deleted while the process runs (alone in the cell, or
+    # next to another one): no action for it afterwards, whatever happens to
+    # its instances
+    for n0 in (1, 3):
+        for others in (0, 1):
+            for cur_after in (0, n0 + 2):
+                subs.append(('deleted-%d-others%d-cur%d' % (n0, others,
+                                                           cur_after),
+                             {'kind': 'reconfig', 'n0': n0, 'n1': None,
+                              'cur0': n0, 'others': others,
+                              'cur_after': cur_after}))
     # scale-down of a monitor whose count is changed through the real
     # masterapi.update_appmonitor (count only, as the REST API sends it): the
     # policy configured earlier still decides which instances go
@@ -175,16 +186,18 @@ def harness_reconfig(S, spec):
                 # registration inside the loop trips over it)
                 from crosshair.tracers import NoTracing
                 with NoTracing():
-                    fn([APP] if 'monitor' in path else
+                    fn(([APP] + ['proid.other'] * spec.get('others', 0))
+                       if 'monitor' in path else
                        ['%s#%010d' % (APP, i + 1)
-                        for i in range(spec['cur0'])])
+                        for i in range(spec['cur0'])] +
+                       ['proid.other#0000000001'] * spec.get('others', 0))
                 return fn
             return deco
 
     def _existing_data_watch(_zk, path):
         def deco(fn):
             data_watch[path] = fn
-            fn(str(n0), object(), None)
+            fn(str(n0) if path.endswith(APP) else '1', object(), None)
             return fn
         return deco
 
@@ -197,10 +210,26 @@ def harness_reconfig(S, spec):
             elif k == 1:
                 # re-configuration arrives; from now on nothing is running
                 self.now = t[2]
-                list(data_watch.values())[0](str(n1), object(), None)
                 from crosshair.tracers import NoTracing
-                with NoTracing():
-                    [fn([]) for p_, fn in children.items() if 'sched' in p_]
+                if n1 is None:
+                    # the monitor node is deleted: its data watch fires with
+                    # a DELETED event, the children watch with what is left
+                    ev = type('E', (), {'type': 'DELETED'})()
+                    [fn(None, None, ev) for p_, fn in data_watch.items()
+                     if p_.endswith(APP)]
+                    with NoTracing():
+                        [fn(['proid.other'] * spec.get('others', 0))
+                         for p_, fn in children.items() if 'monitor' in p_]
+                        [fn(['%s#%010d' % (APP, i + 1)
+                             for i in range(spec['cur_after'])] +
+                            ['proid.other#0000000001'] * spec.get('others', 0))
+                         for p_, fn in children.items() if 'sched' in p_]
+                else:
+                    [fn(str(n1), object(), None)
+                     for p_, fn in data_watch.items() if p_.endswith(APP)]
+                    with NoTracing():
+                        [fn([]) for p_, fn in children.items()
+                         if 'sched' in p_]
                 self.now = t[3]
             elif k <= EVALS:
                 self.now = t[2 + k]
@@ -225,9 +254,11 @@ def harness_reconfig(S, spec):
 
     def post(urls, url, payload=None, headers=None, **_kw):
         conf = holder['state']['monitors'].get(APP)
+        with __import__('crosshair.tracers').tracers.NoTracing():
+            app = str(url).split('/instance/', 1)[-1].split('?', 1)[0]
         calls.append({'step': script['step'], 'payload': payload,
                       'before': conf['available'] if conf else None,
-                      'conf': conf})
+                      'conf': conf, 'url': str(url)[:40], 'app': app})
         return None
     am.restclient.post = post
     am.zkutils.update = lambda *a, **k: None
@@ -250,8 +281,19 @@ def harness_reconfig(S, spec):
         pass
     finally:
         am.reevaluate = real_reevaluate
-    S.reach('reconfigured')
     S.check('C20:evaluations_did_not_run', script['step'] == EVALS + 2)
+    if n1 is None:
+        S.reach('monitor_deleted')
+        acts = [c for c in calls if c['step'] >= 2 and
+                (c['payload'] == {} and c.get('app') == APP or
+                 c['payload'] not in ({}, None) and
+                 any(str(i).startswith(APP + '#')
+                     for i in c['payload'].get('instances', [])))]
+        S.check('C20:deleted_monitor_causes_action', not acts,
+                {'calls': [(c['step'], c.get('url'), c['payload'])
+                           for c in acts]})
+        return
+    S.reach('reconfigured')
     # creates requested after the re-configuration; the amount of each is the
     # number of tokens taken (post happens before the balance is reduced and
     # nothing else touches it until the next evaluation refills it)
@@ -525,5 +567,6 @@ META = {
                           'get_appmonitor (on memzk)'],
     'reach_required': ['acted', 'created', 'deleted', 'create_succeeded',
                        'no_monitor', 'reconfigured',
-                       'created_after_reconfiguration', 'scaled_down'],
+                       'created_after_reconfiguration', 'scaled_down',
+                       'monitor_deleted'],
 }
